@@ -66,7 +66,7 @@ def _consistent(pargs, aargs):
 
 class Ref(object):
     __slots__ = ("status", "probs", "nworlds", "nchoices", "query_undefined", "any_undefined", "ground_negcycle",
-                 "pe", "qatoms", "natoms", "nrules", "joint", "dead_body_in_cycle")
+                 "pe", "qatoms", "natoms", "nrules", "joint", "dead_body_in_cycle", "dead_body_any")
 
     def __init__(self):
         self.status = "ok"
@@ -82,6 +82,7 @@ class Ref(object):
         self.nrules = 0
         self.joint = None
         self.dead_body_in_cycle = False
+        self.dead_body_any = False
 
 
 def _lfp(rules, blocked_by, n_atoms):
@@ -226,8 +227,8 @@ def reference(prog, max_worlds=1 << 12, extra_queries=(), want_joint=False, full
     joint = {} if want_joint else None
     watch = set(i for _, i in qi) | set(i for i, _ in ei)
     # ground rules with a negative literal whose head predicate is on a positive cycle: is the body ever true?
-    cand = [(ai(h), tuple(ai(a) for a in pos), tuple(ai(a) for a in neg)) for h, pos, neg, ch in rrules
-            if neg and h[0] in cyc_preds]
+    cand = [(ai(h), tuple(ai(a) for a in pos), tuple(ai(a) for a in neg)) for h, pos, neg, ch in rrules if neg]
+    cand_cyc = [h[0] in cyc_preds for h, pos, neg, ch in rrules if neg]
     alive = [False] * len(cand)
     for combo in itertools.product(*[range(len(groups[g])) for g in rgroups]):
         w = F(1)
@@ -256,7 +257,8 @@ def reference(prog, max_worlds=1 << 12, extra_queries=(), want_joint=False, full
                 k = tuple(i in true for _, i in qi)
                 joint[k] = joint.get(k, F(0)) + w
     R.pe = pe
-    R.dead_body_in_cycle = not all(alive)
+    R.dead_body_any = not all(alive)
+    R.dead_body_in_cycle = any(c and not a for c, a in zip(cand_cyc, alive))
     if pe == 0:
         R.status = "inconsistent"
         return R
